@@ -252,7 +252,7 @@ def run (j : Json) : Except String Json := do
   -- the side conditions of `C09.emitted_module_accepted_partial`
   let srcOk := defSrcs.all (Emit.classSrcOk X) && Emit.classSrcOk X ⟨name, desc, s⟩
   let clean := PyGram.textClean text
-  let nestOk := Emit.depthOk O defSrcs ⟨name, desc, s⟩
+  let nestOk := Emit.schemaDepthOk defSrcs ⟨name, desc, s⟩
   let recogReal : Option PyGram.Verdict := match optField j "code" with
     | some (.str c) => some (PyGram.recognise X c.toList)
     | _ => none
